@@ -135,7 +135,7 @@ def run(ctx):
             with rt.tempdir("c16_") as d:
                 root = os.path.join(d, "root")
                 os.makedirs(root)
-                sizes = {"empty.bin": 0, "one.bin": 1, "k.bin": 1000, "big.bin": 70000, "old69.bin": 69, "old68.bin": 68, "epoch.bin": 70, "oldfrac.bin": 71, "frac.bin": 72}
+                sizes = {"empty.bin": 0, "one.bin": 1, "k.bin": 1000, "big.bin": 70000, "old69.bin": 69, "old68.bin": 68, "epoch.bin": 70, "oldfrac.bin": 71, "frac.bin": 72, "huge.bin": 1024 * 1024 + 1, "two.bin": 2 * 1024 * 1024}
                 mt = {}
                 # file times: prefer instants in the second pass of a repeated hour and right after a gap
                 folds = [q for q in pts if datetime.datetime.fromtimestamp(q).fold]
